@@ -67,7 +67,10 @@ SPEC = {
         "inline_offsets_tile", "binding_complete", "inline_buffers_correct", "assign_never_panics",
         "register_class_iff_resource", "non_resource_global_is_inert",
         "compile_shape_as_modelled", "per_pipeline_default_group", "fresh_module_unbound", "per_pipeline_tiling",
-        "by_name_agrees_with_whole_file", "metadata_is_the_allocation"]],
+        "by_name_agrees_with_whole_file", "metadata_is_the_allocation",
+        "attribute_fold_later_wins", "accepted_annotations_agree", "declarator_groups_independent",
+        "declarator_group_depends_only_on_itself", "front_lists_each_declarator", "agrees_get",
+        "declarator_lands_in_its_own_group"]],
     "harness": "c06",
     "level_text": "Proof: the allocator model (a fold with two counters) is proved, for every declaration sequence, default group "
                   "and parameter set compile() can build, to hand out per-group index ranges that tile [0,total) in declaration "
